@@ -169,11 +169,27 @@ def run(ctx, log):
     # floats
     fl = list(FLOAT_SPECIALS) + [rand_float_bits(rng) for _ in range(12 if ctx.quick else 80)]
     fpairs = [(x, y) for x in fl for y in fl]
+    # neighbouring values: one and two units in the last place apart are DIFFERENT numbers
+    def bits_add(b, k):
+        return "%016x" % ((int(b, 16) + k) & 0xFFFFFFFFFFFFFFFF)
+    near = []
+    for x in ["3ff0000000000000", "3fd3333333333333", "4330000000000000", "0010000000000000", "7fefffffffffffff", "3fb999999999999a", "4024000000000000", "0000000000000001", "bff0000000000000"] + [rand_float_bits(rng) for _ in range(6 if ctx.quick else 60)]:
+        for k in (1, 2, -1):
+            y = bits_add(x, k)
+            fx, fy = float_of_bits(x), float_of_bits(y)
+            if fx == fx and fy == fy and abs(fx) != float("inf") and abs(fy) != float("inf"):
+                near.append((x, y))
+                near.append((y, x))
+    ctx.count("neighbouring-float-pairs", len(near))
     if ctx.quick:
         fpairs = rng.sample(fpairs, 350)
     for x, y in fpairs:
         for sym, name in (arith_cmp if not ctx.quick else rng.sample(arith_cmp, 4)):
             cases.append(("FGeneric", sym, name, ("F", x), ("F", y)))
+    for x, y in near:
+        for sym, name in OPS[5:11]:
+            cases.append(("FGeneric", sym, name, ("F", x), ("F", y)))
+            cases.append(("FComputed", sym, name, ("F", x), ("F", y)))
     # strings
     for x in STRS:
         for y in STRS:
@@ -223,6 +239,22 @@ def run(ctx, log):
         un.append(("stel x = %s; [x == x, x != x, x < x, x <= x, x > x, x >= x]" % v, exp))
         un.append(("stel x = %s; stel y = x; [x == y, y != x, x < y, y <= x, x > y, y >= x]" % v, exp))
         un.append(("functie f(a, b) { [a == b, a != b, a < b, a <= b, a > b, a >= b] } stel x = %s; f(x, x)" % v, exp))
+    # a comparison under `!`, an arithmetic result under `-`: the result of the operator, negated - NaN included - in the
+    # generic and in the fused forms
+    nan, one = "(0.0 / 0.0)", "1.0"
+    for l, r, vals in ((nan, one, "b0,b0,b0,b0,b0,b1"), (one, nan, "b0,b0,b0,b0,b0,b1"), (nan, nan, "b0,b0,b0,b0,b0,b1"), (one, "2.0", "b1,b1,b0,b0,b0,b1"), ("2", "2", "b0,b1,b0,b1,b1,b0"), ("\"a\"", "\"b\"", "b1,b1,b0,b0,b0,b1")):
+        neg = ",".join("b1" if v == "b0" else "b0" for v in vals.split(","))
+        un.append(("stel l = %s; stel r = %s; [!(l < r), !(l <= r), !(l > r), !(l >= r), !(l == r), !(l != r)]" % (l, r), "OK #0=A[%s]" % neg))
+        un.append(("functie f(l, r) { [!(l < r), !(l <= r), !(l > r), !(l >= r), !(l == r), !(l != r)] } f(%s, %s)" % (l, r), "OK #0=A[%s]" % neg))
+        un.append(("stel l = %s; stel r = %s; stel k = l < r; [!k, als !(l < r) { 1 } anders { 2 }, als !(l >= r) { 1 } anders { 2 }]" % (l, r), "OK #0=A[%s,i%d,i%d]" % (neg.split(",")[0], 1 if neg.split(",")[0] == "b1" else 2, 1 if neg.split(",")[3] == "b1" else 2)))
+    for z, vals in (("3", "b0,b1,b1,b0"), ("7", "b1,b1,b0,b0"), ("5", "b1,b0,b0,b1")):
+        # x = 5 against the literal z, fused forms: !(x < z), !(x <= z)?? -> computed from the plain comparison
+        lt, le = 5 < int(z), 5 <= int(z)
+        un.append(("functie f(x) { [!(x < %s), !(x <= %s), !(x > %s), !(x >= %s), !(x == %s), !(x != %s), !(%s < x), !(%s >= x)] } f(5)" % (z, z, z, z, z, z, z, z),
+                   "OK #0=A[%s]" % ",".join("b1" if v else "b0" for v in [not 5 < int(z), not 5 <= int(z), not 5 > int(z), not 5 >= int(z), not 5 == int(z), not 5 != int(z), not int(z) < 5, not int(z) >= 5])))
+    un += [("[1.0 / -0.0, 1.0 / 0.0]", "OK #0=A[#1=Ffff0000000000000,#2=F7ff0000000000000]"), ("[1.0 / 0.0, 1.0 / -0.0, -0.0, 0.0]", "OK #0=A[#1=F7ff0000000000000,#2=Ffff0000000000000,#3=F8000000000000000,#4=F0000000000000000]"),
+           ("functie f(x) { [x / -0.0, x / 0.0, -1.5 + x, -2 + 2] } f(1.0)", "OK #0=A[#1=Ffff0000000000000,#2=F7ff0000000000000,#3=Fbfe0000000000000,i0]"), ("[-7, 7, -(7), 0 - 7, -7 + 7]", "OK #0=A[i-7,i7,i-7,i-7,i0]"),
+           ("stel a = -2.5; stel b = 2.5; [a, b, -a == b, a + b]", "OK #0=A[#1=Fc004000000000000,#2=F4004000000000000,b1,#3=F0000000000000000]")]
     un.append(("stel a = [1]; a == a", "ERR Type"))
     un.append(("stel f = functie() { 1 }; [f == f, f != f]", "OK #0=A[b1,b0]"))
     uo = vlib.nlh("eval", ["1000 " + vlib.hexs(s) for s, _ in un], tag="c06u")
